@@ -291,3 +291,42 @@ Qed.
 Print Assumptions C13_fs_comp_sched_indep.
 Print Assumptions C13_fs_comp_sources.
 Print Assumptions C13_fs_comp_example.
+
+(* ---------- Tie A, decision logic (tools/src2v2.py -> gen/Src2.v): writers: accepted sizes, the tag goes through write_all, the position counts accepted bytes ---------- *)
+From MLA Require SrcTie2b SrcTie2Events.
+Check SrcTie2b.ew_write_src.
+Theorem C13_tie_ew_write_src : ltac:(let t := type of SrcTie2b.ew_write_src in exact t).
+Proof. exact SrcTie2b.ew_write_src. Qed.
+Print Assumptions C13_tie_ew_write_src.
+Check SrcTie2b.ew_write_size_bounds.
+Theorem C13_tie_ew_write_size_bounds : ltac:(let t := type of SrcTie2b.ew_write_size_bounds in exact t).
+Proof. exact SrcTie2b.ew_write_size_bounds. Qed.
+Print Assumptions C13_tie_ew_write_size_bounds.
+Check SrcTie2b.ew_renew_src.
+Theorem C13_tie_ew_renew_src : ltac:(let t := type of SrcTie2b.ew_renew_src in exact t).
+Proof. exact SrcTie2b.ew_renew_src. Qed.
+Print Assumptions C13_tie_ew_renew_src.
+Check SrcTie2b.pos_write_src.
+Theorem C13_tie_pos_write_src : ltac:(let t := type of SrcTie2b.pos_write_src in exact t).
+Proof. exact SrcTie2b.pos_write_src. Qed.
+Print Assumptions C13_tie_pos_write_src.
+Check SrcTie2b.hash_read_src.
+Theorem C13_tie_hash_read_src : ltac:(let t := type of SrcTie2b.hash_read_src in exact t).
+Proof. exact SrcTie2b.hash_read_src. Qed.
+Print Assumptions C13_tie_hash_read_src.
+Check SrcTie2b.stream_write_src.
+Theorem C13_tie_stream_write_src : ltac:(let t := type of @SrcTie2b.stream_write_src in exact t).
+Proof. exact @SrcTie2b.stream_write_src. Qed.
+Print Assumptions C13_tie_stream_write_src.
+Check SrcTie2Events.enc_write_tag_write_all.
+Theorem C13_tie_enc_write_tag_write_all : ltac:(let t := type of SrcTie2Events.enc_write_tag_write_all in exact t).
+Proof. exact SrcTie2Events.enc_write_tag_write_all. Qed.
+Print Assumptions C13_tie_enc_write_tag_write_all.
+Check SrcTie2Events.EV_enc_write_shape.
+Theorem C13_tie_EV_enc_write_shape : ltac:(let t := type of SrcTie2Events.EV_enc_write_shape in exact t).
+Proof. exact SrcTie2Events.EV_enc_write_shape. Qed.
+Print Assumptions C13_tie_EV_enc_write_shape.
+Check SrcTie2Events.EV_wwc_write_shape.
+Theorem C13_tie_EV_wwc_write_shape : ltac:(let t := type of SrcTie2Events.EV_wwc_write_shape in exact t).
+Proof. exact SrcTie2Events.EV_wwc_write_shape. Qed.
+Print Assumptions C13_tie_EV_wwc_write_shape.
